@@ -38,7 +38,7 @@ _CTX = {
 # letter, a letter that NFKC folds to two ASCII letters, a character that NFKC
 # folds to '_', the dot, a digit, a character that NFKC folds to the delimiter,
 # a combining mark that composes with the delimiter, and the escape prefix
-ALPHA = ["a", "X", "_", "-", "?", "\u00e9", "\ufb01", "\ufe33", ".", "1", "\u2169", "\u0308", "hyx_", "h", "x", "y"]
+ALPHA = ["a", "X", "_", "-", "?", "\u00e9", "\ufb01", "\ufe33", ".", "1", "\u2169", "\u0308", "hyx_", "h", "x", "y", "U"]
 
 BOUNDS = {
     "quick": dict(contexts=CONTEXTS_QUICK, strlen=4, cp_shards=272, str_shards=16),
